@@ -132,6 +132,11 @@ func issue(s pb.B6Server, r Request) string {
 			ids = append(ids, b6.NewFeatureIDFromProto(id).String())
 		}
 		sort.Strings(ids)
+		if vlib.Known("c40-evaluate-not-atomic") {
+			// known finding: a world is listed from the moment a request names it, before that
+			// request's change is applied; which worlds a concurrent list shows isn't compared
+			return "listed"
+		}
 		return "worlds: " + strings.Join(ids, " ")
 	case "delete":
 		if _, err := s.DeleteWorld(ctx, &pb.DeleteWorldRequestProto{Id: b6.NewProtoFromFeatureID(worldIDs[r.World])}); err != nil {
@@ -261,8 +266,8 @@ func check(c Case) vlib.Outcome {
 	if len(c.Clients) < 2 || len(c.Clients) > 4 || total > 6 || c.Repeats < 1 || c.Repeats > 200 {
 		return vlib.Outcome{Skip: true}
 	}
-	if copies >= 1 && vlib.Known("c40-read-then-apply") {
-		return vlib.Excluded("c40-read-then-apply")
+	if copies >= 1 && vlib.Known("c40-evaluate-not-atomic") {
+		return vlib.Excluded("c40-evaluate-not-atomic")
 	}
 	w, err := baseWorld()
 	if err != nil {
